@@ -134,8 +134,10 @@ def typed(c, idx, x, plain_ok=False):
         return xk in ('bytes', 'text', 'oid', 'bits', 'map')
     if k == 'alpha':
         return xk in ('bytes', 'text', 'oid')
-    if k in ('present', 'absent'):
+    if k == 'present':
         return True
+    if k == 'absent':
+        return xk != 'oid'          # presence is about components; a raw tuple upsets the message's % formatting
     if k == 'with':
         return (xk == 'map' and all(_nonbits(kk) for kk, _ in x[1])
                 and all(typed(fc, None, _component(x, f), plain_ok) for f, fc in c[1]))
@@ -325,13 +327,14 @@ def to_pyasn1(c):
 def impl_verdict(pc, x, idx=None, wrap=False):
     """run the real constraint: 'pass' | 'fail' | 'crash:<ExceptionName>'"""
     from pyasn1.type import error
+    from pyasn1 import error as error2      # a second class of the same name lives there
     try:
         if idx is None:
             pc(cval_py(x, wrap))
         else:
             pc(cval_py(x, wrap), idx[1])
         return 'pass'
-    except error.ValueConstraintError:
+    except (error.ValueConstraintError, error2.ValueConstraintError):
         return 'fail'
     except Exception as e:
         return 'crash:' + type(e).__name__
